@@ -387,6 +387,7 @@ pub fn ls_check(id: &str) -> Option<LsCheck> {
             id: "C16",
             profile: Profile {
                 name: "charged-cost",
+                negative_costs: true,
                 modes: vec![Mode::Quiescent],
                 ttl_pct: 25,
                 w: w(|w| {
